@@ -1,8 +1,11 @@
 #!/bin/sh
-# usage: tools/mutcheck.sh <prop> <patch.diff> : apply patch to /repo, run quick check, always revert
+# usage: tools/mutcheck.sh <prop> <patch.diff> [lines] : apply patch to /repo, run quick check, always revert;
+# the committed evidence file is saved and restored (a run against a seeded change must never be committed as evidence)
 prop=$1; patch=$2
 cd /verif || exit 3
 if ! git -C /repo diff --quiet; then echo "repo dirty"; exit 3; fi
+cp "evidence/$prop.json" "/tmp/evidence_$prop.bak" 2>/dev/null
 git -C /repo apply "$(realpath "$patch")" || { echo "patch does not apply"; exit 3; }
 timeout 900 ./check "$prop" quick 2>&1 | cut -c1-400 | tail -${3:-6}
 git -C /repo checkout -- .
+[ -f "/tmp/evidence_$prop.bak" ] && mv "/tmp/evidence_$prop.bak" "evidence/$prop.json"
